@@ -244,10 +244,18 @@ struct BindMachine : Machine {
 
   // load a topology; how: 0 foreign, 1 IS_THISSYSTEM flag, 2 HWLOC_THISSYSTEM=1, 3 x86 discovery on the model's CPUs,
   // 4 native linux, 5 native linux,x86
+  uint64_t failfirst = 0; unsigned nloads = 0;   // set per run from the plan seed
   int load_topo(hwloc_topology_t *tp, int how, unsigned long tflags) {
     hwloc_topology_t t; *tp = nullptr;
     if (hwloc_topology_init(&t)) return -1;
     int rc = 0;
+    // one load in four is preceded by a load that fails on the same handle (an XML buffer with an object of unknown type): what the failed attempt
+    // decided (backend, "is this system") must not survive into the load that follows - the binding clauses below are judged on its result
+    if ((failfirst >> (nloads++ % 32) * 2 & 3) == 3) {
+      static const char bad[] = "<?xml version=\"1.0\" encoding=\"UTF-8\"?>\n<topology version=\"3.0\">\n <object type=\"Machine\" os_index=\"0\" cpuset=\"0x1\" complete_cpuset=\"0x1\" nodeset=\"0x1\" complete_nodeset=\"0x1\" gp_index=\"1\">\n  <object type=\"Bogus\" os_index=\"0\" cpuset=\"0x1\" complete_cpuset=\"0x1\" nodeset=\"0x1\" complete_nodeset=\"0x1\" gp_index=\"2\"/>\n </object>\n</topology>\n";
+      int fa = hwloc_topology_set_xmlbuffer(t, bad, (int)sizeof bad); int fb = fa ? -1 : hwloc_topology_load(t);
+      if (fb == 0) { hwloc_topology_destroy(t); if (hwloc_topology_init(&t)) return -1; }   // (not expected) the document loaded: start over with a fresh handle
+    }
     if (how <= 2) {
       if (src_kind == "syn") rc = hwloc_topology_set_synthetic(t, src_name.c_str());
       else rc = hwloc_topology_set_xml(t, (repo + "/tests/hwloc/xml/" + src_name).c_str());
@@ -737,6 +745,7 @@ struct BindMachine : Machine {
     hwloc_topology_t t = nullptr;
     judged_load(r, how == 3 ? "reload x86" : how == 1 ? "reload IS_THISSYSTEM" : "reload HWLOC_THISSYSTEM=1", how, tf, &t, true);
     if (!t) return;
+    if (!hwloc_topology_is_thissystem(t)) { hwloc_topology_destroy(t); r.fail0("bind.thissystem_state", "topology reloaded with %s reports is_thissystem=0", how == 3 ? "x86 discovery" : how == 1 ? "IS_THISSYSTEM" : "HWLOC_THISSYSTEM=1"); }
     if (o.u("keep")) { drop_rep(2); reps[2].t = t; describe(reps[2]); reps[2].how = "reload"; r.ev("  kept as r2 thissystem=%d pus=%zu nodes=%zu", (int)reps[2].thissystem, reps[2].topo.size(), reps[2].ntopo.size()); }
     else hwloc_topology_destroy(t);
   }
@@ -794,6 +803,7 @@ struct BindMachine : Machine {
     int how = mode == "foreign" ? 0 : mode == "flag" ? 1 : mode == "envvar" ? 2 : 3;
     if (src_kind == "x86") how = 3;
     r.curop = "load"; r.curopidx = -1;
+    failfirst = p.seed * 0x9e3779b97f4a7c15ULL; failfirst ^= failfirst >> 29; nloads = 0;
     hwloc_topology_t t = nullptr;
     if (how == 3) { shape_x86(std::max(1, src_ncpu), p); judged_load(r, "load x86", 3, 0, &t, true); }
     else { int rc = load_topo(&t, how, 0); r.ev("load %s %s mode=%s -> rc=%d", src_kind.c_str(), src_name.c_str(), mode.c_str(), rc); }
@@ -803,7 +813,9 @@ struct BindMachine : Machine {
     if (how == 3) { Rng g(p.hki("shape", "seed", 1) + 7); shape_nodes(R0, g, 0); } else shape_after(R0, p);
     r.ev("topology thissystem=%d complete={%s} topo={%s} ncomplete={%s} ntopo={%s} | kernel %s present={%s} online={%s} allowed={%s} nodes={%s} mask0={%s}", (int)R0.thissystem, sstr(R0.complete).c_str(), sstr(R0.topo).c_str(),
          sstr(R0.ncomplete).c_str(), sstr(R0.ntopo).c_str(), K.config_str().c_str(), sstr(K.present).c_str(), sstr(K.online).c_str(), sstr(K.allowed).c_str(), sstr(K.nodes).c_str(), sstr(K.observable_mask(K.tids[0])).c_str());
-    if ((how != 0) != R0.thissystem) r.count("probe.thissystem_unexpected");
+    // a synthetic / XML topology describes this system iff the application said so (IS_THISSYSTEM flag or HWLOC_THISSYSTEM=1); x86 discovery on the
+    // model's CPUs always does. Everything the statement promises about "topologies that do not describe this system" vs "the running system" hangs on it
+    if ((how != 0) != R0.thissystem) r.fail0("bind.thissystem_state", "topology loaded in mode %s reports is_thissystem=%d", mode.c_str(), (int)R0.thissystem);
     r.count(R0.thissystem ? "runs_thissystem" : "runs_foreign");
     if (R0.complete != R0.topo) r.count("probe.topology_with_disallowed_pus");
     int idx = 0;
